@@ -24,3 +24,66 @@ Proof.
     { intros (A & B & C). apply N. destruct x, y; cbn in *; subst. reflexivity. }
     lia.
 Qed.
+
+(* ---- the extra laws of Inv.v for the executable codec / identity ---- *)
+From Foca Require Import L_Lists MembersM L_Members L_MembersInv L_Bcast Hoare Inv.
+
+Lemma Forall_skipn {A} (P : A -> Prop) n (l : list A) : Forall P l -> Forall P (skipn n l).
+Proof. revert l. induction n; intros l H; cbn; auto. destruct l; auto. inversion H; auto. Qed.
+
+Lemma dec_id_rest (P : N -> Prop) b i r : Forall P b -> dec_id b = Some (i, r) -> Forall P r.
+Proof.
+  unfold dec_id. destruct b as [|a1 [|a0 [|g1 [|g0 [|k [|p r0]]]]]]; try discriminate.
+  intros F H. destruct (_ && _ && _); [|discriminate]. inversion H; subst.
+  apply Forall_skipn. repeat (match goal with F : Forall _ (_ :: _) |- _ => inversion F; clear F; subst end). auto.
+Qed.
+
+Lemma c_dec_mem_rest (P : N -> Prop) b m r : Forall P b -> c_dec_mem b = Some (m, r) -> Forall P r.
+Proof.
+  unfold c_dec_mem. intros F H. destruct (dec_id b) as [[i r0]|] eqn:D; [|discriminate].
+  pose proof (dec_id_rest P _ _ _ F D) as F0.
+  destruct r0 as [|i1 [|i0 [|s r1]]]; try discriminate.
+  destruct (dec_state s); [|discriminate]. inversion H; subst.
+  repeat (match goal with F : Forall _ (_ :: _) |- _ => inversion F; clear F; subst end). auto.
+Qed.
+
+Ltac inv_forall :=
+  repeat (match goal with F : Forall _ (_ :: _) |- _ => inversion F; clear F; subst end).
+
+Lemma dec_msg_rest (P : N -> Prop) b m r : Forall P b -> dec_msg b = Some (m, r) -> Forall P r.
+Proof.
+  intros F H. unfold dec_msg in H.
+  repeat (match type of H with
+          | context [match ?x with _ => _ end] => destruct x eqn:?
+          end; try discriminate).
+  all: inversion H; subst; inv_forall; auto.
+  all: match goal with
+       | D : dec_id ?x = Some (_, ?y) |- _ =>
+           let Fy := fresh in
+           assert (Fy : Forall P y) by (eapply dec_id_rest; [|exact D]; auto);
+           inversion Fy; subst; auto
+       end.
+Qed.
+
+Lemma c_dec_hdr_rest (P : N -> Prop) b h r : Forall P b -> c_dec_hdr b = Some (h, r) -> Forall P r.
+Proof.
+  unfold c_dec_hdr. intros F H. destruct (dec_id b) as [[src r0]|] eqn:D; [|discriminate].
+  pose proof (dec_id_rest P _ _ _ F D) as F0.
+  destruct r0 as [|i1 [|i0 r1]]; try discriminate.
+  destruct (dec_id r1) as [[dst r2]|] eqn:D2; [|discriminate].
+  assert (F1 : Forall P r1) by (repeat (match goal with F : Forall _ (_ :: _) |- _ => inversion F; clear F; subst end); auto).
+  pose proof (dec_id_rest P _ _ _ F1 D2) as F2.
+  destruct (dec_msg r2) as [[m r3]|] eqn:D3; [|discriminate].
+  inversion H; subst. eapply dec_msg_rest; eauto.
+Qed.
+
+Global Instance cid_extra : @ExtraLaws cid N cid_ops cid_codec.
+Proof.
+  constructor.
+  - intros x y. cbn. unfold cid_renew. destruct (ck x) as [|p]; [discriminate|].
+    destruct p as [[p|p|]|[p|p|]|]; try (intros H; inversion H; reflexivity).
+    destruct (cg x <? 65535); intros H; inversion H; reflexivity.
+  - intros m. unfold enc_mem, cid_codec, c_enc_mem, enc_id, len. rewrite !app_length. cbn [length u16_be]. lia.
+  - intros b h r. cbn. apply c_dec_hdr_rest.
+  - intros b m r. cbn. apply c_dec_mem_rest.
+Qed.
